@@ -197,6 +197,14 @@ class OneOf(Shape):
         self.values = list(values)
 
 
+class Variant(Shape):
+    """One of several shapes (every alternative is explored on its own path)."""
+    kind = "variant"
+
+    def __init__(self, *shapes):
+        self.shapes = list(shapes)
+
+
 class TaskT(Shape):
     """An asyncio.Task created earlier: done or not; if done, how it ended."""
     kind = "task"
